@@ -11,6 +11,12 @@ pub enum St {
     /// something outside the statements' domain was accepted: until the next opener the
     /// continuation verdicts are counted but not judged
     Ambiguous,
+    /// the final fragment of an open group passed sequencing but its delivery failed in
+    /// decoding. The statements do not say whether that consumes the group, so two readings
+    /// are allowed: the group is gone (everything with k >= 2 is rejected), or the failed
+    /// fragment does not count as accepted and the group is still open at `last`. Under
+    /// either reading only a direct continuation of `last` can be accepted.
+    FailedFinal { id: Option<u8>, last: u8, n: u8, acc: Vec<u8> },
 }
 
 #[derive(Clone, Debug, PartialEq, Eq)]
@@ -76,6 +82,13 @@ pub fn line_class(st: &St, n: u8, k: u8, id: Option<u8>) -> &'static str {
         St::Closed { delivered: true } => "stale-after-delivery",
         St::Closed { delivered: false } => "orphan",
         St::Ambiguous => "in-ambiguous",
+        St::FailedFinal { id: oid, last, .. } => {
+            if *oid == id && k == last + 1 {
+                "retry-after-failed-delivery"
+            } else {
+                "stale-after-failed-delivery"
+            }
+        }
     }
 }
 
@@ -86,6 +99,7 @@ pub fn state_class(st: &St) -> &'static str {
         St::Open { last: 1, .. } => "open-last1",
         St::Open { .. } => "open-last2plus",
         St::Ambiguous => "ambiguous",
+        St::FailedFinal { .. } => "after-failed-delivery",
     }
 }
 
@@ -107,6 +121,15 @@ impl Reasm {
         }
         match &self.st {
             St::Ambiguous => Expect::Unjudged,
+            St::FailedFinal { id: oid, last, acc, .. } => {
+                if *oid == id && k == last + 1 {
+                    let mut p = acc.clone();
+                    p.extend_from_slice(payload);
+                    Expect::Either(if k == n { Some(p) } else { None })
+                } else {
+                    Expect::Reject("no fragment directly before it was accepted (the group's delivery failed)")
+                }
+            }
             St::Closed { delivered: true } => Expect::Reject("stale: the group was already delivered"),
             St::Closed { delivered: false } => Expect::Reject("orphan: no open group"),
             St::Open { id: oid, last, n: on, acc } => {
@@ -167,10 +190,21 @@ impl Reasm {
                     self.st = St::Ambiguous;
                 }
             },
-            (St::Open { .. }, Expect::Complete(_)) => match seen {
+            (St::Open { id: oid, last, n: on, acc }, Expect::Complete(_)) => match seen {
                 Seen::Complete => self.st = St::Closed { delivered: true },
-                Seen::Err if decode => self.st = St::Ambiguous,
+                Seen::Err if decode => {
+                    self.st = St::FailedFinal { id: *oid, last: *last, n: *on, acc: acc.clone() }
+                }
                 _ => self.st = St::Ambiguous,
+            },
+            (St::FailedFinal { id: oid, n: on, acc, .. }, Expect::Either(_)) => match seen {
+                Seen::Incomplete => {
+                    let mut a = acc.clone();
+                    a.extend_from_slice(payload);
+                    self.st = St::Open { id: *oid, last: k, n: *on, acc: a };
+                }
+                Seen::Complete => self.st = St::Closed { delivered: true },
+                Seen::Err => {}
             },
             (St::Open { last, acc, .. }, Expect::Either(_)) => match seen {
                 Seen::Incomplete => {
